@@ -92,7 +92,7 @@ fn negation<T: Dom>(n: usize, k: usize) {
         if let (Some(a), Some(b)) = (m.last(), mn.last()) { T::oblige(&format!("MyRSI(N={n}) t={t}: MyRSI(-x) == -MyRSI(x) unless the window is flat"), Cond::Or(vec![flat, eq(b, -a)])); }
     }
 }
-pub fn units(tier: Tier, _seed: u64) -> Vec<Unit> {
+pub fn units(tier: Tier, seed: u64) -> Vec<Unit> {
     let ns: Vec<usize> = if tier == Tier::Quick { vec![1, 2, 3] } else { vec![1, 2, 3, 4, 5] };
     let mut u = vec![];
     for &n in &ns {
@@ -105,12 +105,20 @@ pub fn units(tier: Tier, _seed: u64) -> Vec<Unit> {
             u.push(unit!(format!("C05/negation/N={n}/k={k}"), negation(n, k)));
         }
     }
+    let big: Vec<(usize, usize)> = if tier == Tier::Quick { vec![(8, 20), (16, 36), (2, 40), (3, 60)] } else { vec![(6, 16), (8, 20), (12, 28), (16, 36), (32, 68), (2, 40), (3, 60), (5, 100)] };
+    let first = u.len();
+    for &(n, k) in &big {
+        u.push(unit!(format!("C05/Rsi-definition/N={n}/k={k}/sample-path"), rsi_def(n, k)));
+        u.push(unit!(format!("C05/MyRSI-definition/N={n}/k={k}/sample-path"), myrsi_def(n, k)));
+        u.push(unit!(format!("C05/negation/N={n}/k={k}/sample-path"), negation(n, k.min(n + 12))));
+    }
+    for (i, x) in u.iter_mut().enumerate().skip(first) { x.concolic = Some(seed * 31 + 1 + (i as u64 % 2)); x.budget_s = 60.0; x.max_decisions = 60000; }
     u
 }
 pub fn meta() -> Meta {
     Meta {
         functions: vec!["Rsi::{new,update,last}", "MyRSI::{new,update,last}", "Echo::{update,last}"],
-        bounds: "N in {1,2,3} (quick; corollaries to 2) / {1..5} (thorough; corollaries to 4); k = 2N+3; inputs unconstrained reals; all comparison outcomes (ties are the else-branch of `change > 0`)",
+        bounds: "N in {1,2,3} (quick; corollaries to 2) / {1..5} (thorough; corollaries to 4); k = 2N+3; inputs unconstrained reals; all comparison outcomes (ties are the else-branch of `change > 0`); in addition (N,k) in {(8,20),(16,36),(2,40),(3,60)} (quick) / up to (32,68),(5,100) (thorough) along the comparison path of a pseudo-random sample input",
         outside: vec!["N > 5, longer streams", "f64 rounding residue of the running sums (that is C16, not claimed)"],
         assumptions: vec![],
     }
